@@ -57,6 +57,11 @@ CLAIMED = {
    "DESIGN.md §6 C08",
    "specReport is the formalised property; differential against Vm::parse on all failing inputs up to a length bound; lister classified with hook H2.",
    "Lean 4 specification of the report on the reference call tree + exhaustive-per-grammar differential against Vm::parse"),
+ "C02": ("other",
+   "The code pest_generator emits is translated (syn AST -> call trees, failing loudly outside the generator's sub-language) and (a) compared AS A TREE, rule function by rule function, with the Lean transcription of generate_rule/generate_expr/generate_expr_atomic, (b) executed call by call on the real ParserState and compared with the Lean gen-lowering on the proved ParserState model, (c) compared with Vm::parse on all inputs up to a length bound (the property itself: identical pairs, error position and expected/unexpected sets), in two builds (default, grammar-extras). The equivalence theorem gen_eq_vm over the two lowerings is not yet proved, hence level other. Three genuine divergences/defects were found and fixed.",
+   "DESIGN.md §6 C02",
+   "rustc is not in the loop for the generated code; the translator gencode.rs is trusted; differential as strong as the generator.",
+   "translation of the emitted code to call trees: tree equality with the Lean generator model + execution against Vm::parse"),
 }
 REASON_TODO = "not claimed yet: machinery for this property is not built in the committed tree (planned in DESIGN.md §6); no check is registered rather than an unsound one"
 
